@@ -29,14 +29,19 @@ def sym_dirty(ctx, cfg):
     n = cfg["n"]
     ps, s = conflib.make_collection(ctx, n, 0, "bool")
     big = n + 1
-    C.CONFIDENCE_CHUNK_SIZE = int(ctx.fresh_int("confidence_chunk", 1, big)) if cfg.get("sym_chunk") else big
+    C.CONFIDENCE_CHUNK_SIZE = int(ctx.fresh_int("confidence_chunk", 1, cfg.get("max_chunk", big))) if cfg.get("sym_chunk") else big
     U.MERGE_SORT_CHUNK_SIZE = big
     prefix = cfg.get("prefix")
     pre = (prefix + ".") if prefix else ""
     stale = []
     # leftovers of an earlier run, each present or not
     if cfg.get("stale_chunks"):
-        k = int(ctx.fresh_int("stale_chunk_index", 0, n + 1))
+        if cfg.get("stale_indices"):
+            # multi-digit indices: leftovers of a run with more chunks (file-name order differs from numeric order)
+            ks = cfg["stale_indices"]
+            k = ks[int(ctx.fresh_int("stale_chunk_index_choice", 0, len(ks) - 1))]
+        else:
+            k = int(ctx.fresh_int("stale_chunk_index", 0, n + 1))
         if bool(ctx.fresh_bool("stale_chunk_present")):
             r = _stale_row(ctx, s, "chunk")
             vfs.put("/vfs/out/%sscores_metadata_%d.pin" % (pre, k), sympd.DataFrame({c: [v] for c, v in r.items()}))
@@ -247,6 +252,7 @@ def harnesses(tier):
         add("dirty[n=2,stale chunk file]", dict(n=2, stale_chunks=True, sym_chunk=True))
         add("dirty[n=2,stale level+result files]", dict(n=2, stale_levels=True, stale_results=True))
         add("dirty[n=2,prefix,stale chunk file]", dict(n=2, stale_chunks=True, prefix="a"))
+        add("dirty[n=3,chunk 1..2,stale chunk file with index 3/9/10/11/20/100]", dict(n=3, stale_chunks=True, stale_indices=[3, 9, 10, 11, 20, 100], sym_chunk=True, max_chunk=2))
         add("produced[first n=2 chunk 1, crash<=10, then n=2]", dict(n_first=2, n=2, first_chunk=1, max_crash=16), sym_produced, "produced", 0.1)
     else:
         add("dirty[n=3,stale chunk file]", dict(n=3, stale_chunks=True, sym_chunk=True), rate=0.01)
